@@ -2,8 +2,8 @@ CONSTANTS
   H = 4
   NWit = 2
   MaxCalls = 3
-  PrimaryPersonas = {"honest", "lunatic", "equiv", "silent", "notfound", "bad", "flip2", "nopivot", "badpivot", "thin3", "weak3", "bound3", "future3", "past3", "malformed3", "badsig3", "lunatic3", "weak4bad", "weak4hole"}
-  WitnessPersonas = {"honest", "lunatic", "equiv", "silent", "notfound", "bad", "lag2", "lagcatch", "lagfuture", "flip2", "thin3", "weak3", "bound3", "future3", "malformed3", "lunatic3", "relay3", "relay4"}
+  PrimaryPersonas = {"honest", "lunatic", "equiv", "silent", "notfound", "bad", "flip2", "nopivot", "badpivot", "thin3", "weak3", "bound3", "future3", "past3", "malformed3", "badsig3", "lunatic3", "weak4bad", "weak4hole", "fwd_m1", "fwd_0", "fwd_p1"}
+  WitnessPersonas = {"honest", "lunatic", "equiv", "silent", "notfound", "bad", "lag2", "lagcatch", "lagfuture", "flip2", "thin3", "weak3", "bound3", "future3", "malformed3", "lunatic3", "relay3", "relay4", "fwd_0", "lag3", "lag3adv", "lag23"}
   Modes = {"skip", "seq"}
   Roots = {1, 3}
   WithUpdate = TRUE
@@ -19,6 +19,7 @@ CONSTANTS
   Weak_ReplacementHashUnchecked = FALSE
   Weak_PromotedWitnessStays = FALSE
   Weak_PartialTraceOnBenignError = FALSE
+  Weak_LaggingWitnessEqualTimeBenign = FALSE
   Weak_DivergentHeaderExaminedOncePerRun = FALSE
 INIT Init
 NEXT Next
